@@ -1,4 +1,5 @@
 import GtirbProofs.Lemmas.ForestInvProofs
+import GtirbProofs.Lemmas.ForestAccessors
 /-! C04: the containment forest is kept consistent from both ends by every
 public operation of the object graph (model C).
 
@@ -41,5 +42,201 @@ theorem C04_run (ops : List Op) : ∀ (g : G), ForestInv g → OpsOK g ops → F
 /-- every reachable state: any history of well-typed operations (failed ones are skipped) -/
 theorem C04_history (ops : List Op) (hops : OpsOK {} ops) : ForestInv (run {} ops) :=
   C04_run ops {} C04_init hops
+
+/-- kinds, uuids and allocation are never changed by an operation on existing nodes -/
+theorem C04_kind_stable (g g' : G) (op : Op) (hs : step g op = .ok g') :
+    g.n ≤ g'.n ∧ ∀ x, x < g.n → g'.kind x = g.kind x ∧ g'.uuid x = g.uuid x :=
+  step_grows hs
+
+/-! ### moving a node removes it from its previous parent -/
+
+set_option linter.unusedVariables false in
+/-- by assigning the parent attribute -/
+theorem C04_move_setParent (g g' : G) (c p q : Nat) (s : Slot) (h : ForestInv g)
+    (hop : OpOK g (.setParent c (some p))) (hs : step g (.setParent c (some p)) = .ok g')
+    (hq : g.par c = some q) (hne : q ≠ p) : c ∉ g'.kids q s ∧ g'.par c = some p := by
+  have hp : g'.par c = some p := setParent_par_self h hop hs
+  have h' := C04_step g g' _ h hop hs
+  refine ⟨?_, hp⟩
+  intro hm
+  have := ((h'.mem_iff c q s).1 hm).1
+  rw [hp] at this
+  exact hne (Option.some.inj this).symm
+
+set_option linter.unusedVariables false in
+/-- by adding it to another parent's collection -/
+theorem C04_move_add (g g' : G) (p : Nat) (s : Slot) (v q : Nat) (h : ForestInv g) (hop : OpOK g (.add p s v))
+    (hs : step g (.add p s v) = .ok g') (hq : g.par v = some q) (hne : q ≠ p) :
+    v ∉ g'.kids q s ∧ g'.par v = some p ∧ v ∈ g'.kids p s := by
+  have hp : g'.par v = some p := nodeSetAdd_par_self h hop.2 hs
+  have h' := C04_step g g' _ h hop hs
+  have hk : g'.kind v = g.kind v := ((step_grows hs).2 v hop.2.2.1).1
+  refine ⟨?_, hp, ?_⟩
+  · intro hm
+    have := ((h'.mem_iff v q s).1 hm).1
+    rw [hp] at this
+    exact hne (Option.some.inj this).symm
+  · exact (h'.mem_iff v p s).2 ⟨hp, by rw [hk]; exact hop.2.2.2.1⟩
+
+/-- through a constructor argument: every node passed in a children argument of the constructor of
+a non-IR node leaves its previous parent and is owned by the new node (`g.n` is the new node's id) -/
+theorem C04_move_mk (g g' : G) (k : Kind) (u : Nat) (kids : List (Slot × List Nat)) (parent : Option Nat)
+    (s : Slot) (vs : List Nat) (x q : Nat) (h : ForestInv g) (hop : OpOK g (.mk k u kids parent))
+    (hs : step g (.mk k u kids parent) = .ok g') (hsv : (s, vs) ∈ kids) (hx : x ∈ vs)
+    (hq : g.par x = some q) : x ∉ g'.kids q s ∧ g'.par x = some g.n ∧ x ∈ g'.kids g.n s := by
+  obtain ⟨h', hpars⟩ := step_mk_spec h hop hs
+  have hp : g'.par x = some g.n := hpars (s, vs) hsv x hx
+  have hxk := hop.2.2.1 (s, vs) hsv x hx
+  have hk : g'.kind x = g.kind x := ((step_grows hs).2 x hxk.1).1
+  refine ⟨?_, hp, ?_⟩
+  · intro hm
+    have := ((h'.mem_iff x q s).1 hm).1
+    rw [hp] at this
+    have hq' := (h.alloc x q hq).2
+    rw [← Option.some.inj this] at hq'
+    exact Nat.lt_irrefl _ hq'
+  · exact (h'.mem_iff x g.n s).2 ⟨hp, by rw [hk]; exact hxk.2.1⟩
+
+set_option linter.unusedVariables false in
+/-- into another IR's module list (`insert`; `append` is the same with `k = len`) -/
+theorem C04_move_insert (g g' : G) (i : Nat) (k : Int) (v j : Nat) (h : ForestInv g) (hop : OpOK g (.insert i k v))
+    (hs : step g (.insert i k v) = .ok g') (hq : g.par v = some j) (hne : j ≠ i) :
+    v ∉ g'.kids j .mods ∧ g'.par v = some i ∧ v ∈ g'.kids i .mods := by
+  have hp : g'.par v = some i := by rw [modInsert_par hs]; simp
+  have h' := C04_step g g' _ h hop hs
+  have hk : g'.kind v = g.kind v := ((step_grows hs).2 v hop.2.1).1
+  refine ⟨?_, hp, ?_⟩
+  · intro hm
+    have := ((h'.mem_iff v j .mods).1 hm).1
+    rw [hp] at this
+    exact hne (Option.some.inj this).symm
+  · exact (h'.mem_iff v i .mods).2 ⟨hp, by rw [hk]; exact hop.2.2.1⟩
+
+theorem C04_move_append (g g' : G) (i v j : Nat) (h : ForestInv g) (hop : OpOK g (.append i v))
+    (hs : step g (.append i v) = .ok g') (hq : g.par v = some j) (hne : j ≠ i) :
+    v ∉ g'.kids j .mods ∧ g'.par v = some i ∧ v ∈ g'.kids i .mods :=
+  C04_move_insert g g' i _ v j h hop hs hq hne
+
+/-- assigning `None` to the parent attribute detaches the node from every collection -/
+theorem C04_detach_setParent (g g' : G) (c : Nat) (h : ForestInv g) (hop : OpOK g (.setParent c none))
+    (hs : step g (.setParent c none) = .ok g') : g'.par c = none ∧ ∀ p s, c ∉ g'.kids p s := by
+  have hp : g'.par c = none := setParent_none_par_self h hs
+  have h' := C04_step g g' _ h hop hs
+  exact ⟨hp, fun p s => h'.not_mem_of_par_none hp p s⟩
+
+/-- `discard` removes the node from the collection and clears its back-pointer -/
+theorem C04_discard (g g' : G) (p : Nat) (s : Slot) (v : Nat) (h : ForestInv g)
+    (hs : step g (.discard p s v) = .ok g') (hm : v ∈ g.kids p s) :
+    g'.par v = none ∧ ∀ p' s', v ∉ g'.kids p' s' := by
+  have hp : g'.par v = none := by
+    rw [setDiscard_par hs]; simp [hm]
+  have h' : ForestInv g' := h.setDiscard hs
+  exact ⟨hp, fun p' s' => h'.not_mem_of_par_none hp p' s'⟩
+
+/-- no node has two parents, nor sits in two collections -/
+theorem C04_one_parent (g : G) (h : ForestInv g) (c p p' : Nat) (s s' : Slot)
+    (h1 : c ∈ g.kids p s) (h2 : c ∈ g.kids p' s') : p = p' ∧ s = s' := by
+  have a := (h.mem_iff c p s).1 h1
+  have b := (h.mem_iff c p' s').1 h2
+  rw [a.1] at b
+  refine ⟨Option.some.inj b.1, ?_⟩
+  have := b.2; rw [a.2] at this; exact Option.some.inj this
+
+/-- in every reachable state: membership iff back-pointer, and no duplicates -/
+theorem C04_history_mem_iff (ops : List Op) (hops : OpsOK {} ops) (c p : Nat) (s : Slot) :
+    c ∈ (run {} ops).kids p s ↔ ((run {} ops).par c = some p ∧ slotOf ((run {} ops).kind c) = some s) :=
+  (C04_history ops hops).mem_iff c p s
+
+theorem C04_history_nodup (ops : List Op) (hops : OpsOK {} ops) (p : Nat) (s : Slot) :
+    ((run {} ops).kids p s).Nodup :=
+  (C04_history ops hops).nodup p s
+
+/-! ### the derived accessors equal what the forest implies -/
+
+/-- the scan over the owning collections finds exactly the nodes whose chained back-pointer
+accessor `.ir` names `i` (no allocation hypothesis on `x` is needed) -/
+theorem C04_reachable_iff (g : G) (h : ForestInv g) (i x : Nat) (hi : g.kind i = .ir) :
+    x ∈ reachable g i ↔ irOf g x = some i :=
+  h.mem_reachable hi x
+
+theorem C04_reachable_nodup (g : G) (h : ForestInv g) (i : Nat) (hi : g.kind i = .ir) : (reachable g i).Nodup :=
+  h.nodup_reachable hi
+
+/-- `IR.byte_blocks` (and `code_blocks` / `data_blocks` below): exactly the blocks whose `.ir` is `i` -/
+theorem C04_irBlocks (g : G) (h : ForestInv g) (i x : Nat) :
+    x ∈ irBlocks g i ↔ ((g.kind x = .code ∨ g.kind x = .data) ∧ irOf g x = some i) := h.mem_irBlocks
+theorem C04_irBlocks_nodup (g : G) (h : ForestInv g) (i : Nat) : (irBlocks g i).Nodup := h.nodup_irBlocks i
+
+theorem C04_irCode (g : G) (h : ForestInv g) (i x : Nat) :
+    x ∈ irCode g i ↔ (g.kind x = .code ∧ irOf g x = some i) := h.mem_irCode
+theorem C04_irCode_nodup (g : G) (h : ForestInv g) (i : Nat) : (irCode g i).Nodup := h.nodup_irCode i
+
+theorem C04_irData (g : G) (h : ForestInv g) (i x : Nat) :
+    x ∈ irData g i ↔ (g.kind x = .data ∧ irOf g x = some i) := h.mem_irData
+theorem C04_irData_nodup (g : G) (h : ForestInv g) (i : Nat) : (irData g i).Nodup := h.nodup_irData i
+
+/-- `IR.cfg_nodes`: code blocks and proxy blocks -/
+theorem C04_irCfgNodes (g : G) (h : ForestInv g) (i x : Nat) :
+    x ∈ irCfgNodes g i ↔ ((g.kind x = .code ∨ g.kind x = .proxy) ∧ irOf g x = some i) := h.mem_irCfgNodes
+theorem C04_irCfgNodes_nodup (g : G) (h : ForestInv g) (i : Nat) : (irCfgNodes g i).Nodup := h.nodup_irCfgNodes i
+
+theorem C04_irSecs (g : G) (h : ForestInv g) (i x : Nat) :
+    x ∈ irSecs g i ↔ (g.kind x = .section ∧ irOf g x = some i) := h.mem_irSecs
+theorem C04_irSecs_nodup (g : G) (h : ForestInv g) (i : Nat) : (irSecs g i).Nodup := h.nodup_irSecs i
+
+theorem C04_irSyms (g : G) (h : ForestInv g) (i x : Nat) :
+    x ∈ irSyms g i ↔ (g.kind x = .symbol ∧ irOf g x = some i) := h.mem_irSyms
+theorem C04_irSyms_nodup (g : G) (h : ForestInv g) (i : Nat) : (irSyms g i).Nodup := h.nodup_irSyms i
+
+theorem C04_irProxies (g : G) (h : ForestInv g) (i x : Nat) :
+    x ∈ irProxies g i ↔ (g.kind x = .proxy ∧ irOf g x = some i) := h.mem_irProxies
+theorem C04_irProxies_nodup (g : G) (h : ForestInv g) (i : Nat) : (irProxies g i).Nodup := h.nodup_irProxies i
+
+theorem C04_irBis (g : G) (h : ForestInv g) (i x : Nat) :
+    x ∈ irBis g i ↔ (g.kind x = .interval ∧ irOf g x = some i) := h.mem_irBis
+theorem C04_irBis_nodup (g : G) (h : ForestInv g) (i : Nat) : (irBis g i).Nodup := h.nodup_irBis i
+
+/-- `IR.modules`: exactly the modules whose `.ir` is `i` -/
+theorem C04_irMods (g : G) (h : ForestInv g) (i x : Nat) :
+    x ∈ g.kids i .mods ↔ (g.kind x = .module ∧ irOf g x = some i) := by
+  rw [h.mem_mods]
+  constructor
+  · rintro ⟨h1, h2⟩; exact ⟨h1, by rw [irOf_module h1]; exact h2⟩
+  · rintro ⟨h1, h2⟩; exact ⟨h1, by rw [irOf_module h1] at h2; exact h2⟩
+
+/-- `Module.byte_blocks` etc.: exactly the blocks whose `.module` is `m` -/
+theorem C04_modBlocks (g : G) (h : ForestInv g) (m x : Nat) :
+    x ∈ modBlocks g m ↔ ((g.kind x = .code ∨ g.kind x = .data) ∧ moduleOf g x = some m) := h.mem_modBlocks
+theorem C04_modBlocks_nodup (g : G) (h : ForestInv g) (m : Nat) : (modBlocks g m).Nodup := h.nodup_modBlocks m
+
+theorem C04_modCode (g : G) (h : ForestInv g) (m x : Nat) :
+    x ∈ modCode g m ↔ (g.kind x = .code ∧ moduleOf g x = some m) := h.mem_modCode
+theorem C04_modCode_nodup (g : G) (h : ForestInv g) (m : Nat) : (modCode g m).Nodup := h.nodup_modCode m
+
+theorem C04_modData (g : G) (h : ForestInv g) (m x : Nat) :
+    x ∈ modData g m ↔ (g.kind x = .data ∧ moduleOf g x = some m) := h.mem_modData
+theorem C04_modData_nodup (g : G) (h : ForestInv g) (m : Nat) : (modData g m).Nodup := h.nodup_modData m
+
+theorem C04_modBis (g : G) (h : ForestInv g) (m x : Nat) :
+    x ∈ modBis g m ↔ (g.kind x = .interval ∧ moduleOf g x = some m) := h.mem_modBis_moduleOf
+theorem C04_modBis_nodup (g : G) (h : ForestInv g) (m : Nat) : (modBis g m).Nodup := h.nodup_modBis m
+
+theorem C04_modCfgNodes (g : G) (h : ForestInv g) (m x : Nat) :
+    x ∈ modCfgNodes g m ↔ ((g.kind x = .code ∨ g.kind x = .proxy) ∧ moduleOf g x = some m) := h.mem_modCfgNodes
+theorem C04_modCfgNodes_nodup (g : G) (h : ForestInv g) (m : Nat) : (modCfgNodes g m).Nodup :=
+  h.nodup_modCfgNodes m
+
+/-- `Section.byte_blocks` etc.: exactly the blocks whose `.section` (two steps up) is `s` -/
+theorem C04_secBlocks (g : G) (h : ForestInv g) (s x : Nat) :
+    x ∈ secBlocks g s ↔ ((g.kind x = .code ∨ g.kind x = .data) ∧ (g.par x).bind g.par = some s) := h.mem_secBlocks
+theorem C04_secBlocks_nodup (g : G) (h : ForestInv g) (s : Nat) : (secBlocks g s).Nodup := h.nodup_secBlocks s
+
+theorem C04_secCode (g : G) (h : ForestInv g) (s x : Nat) :
+    x ∈ secCode g s ↔ (g.kind x = .code ∧ (g.par x).bind g.par = some s) := h.mem_secCode
+theorem C04_secCode_nodup (g : G) (h : ForestInv g) (s : Nat) : (secCode g s).Nodup := h.nodup_secCode s
+
+theorem C04_secData (g : G) (h : ForestInv g) (s x : Nat) :
+    x ∈ secData g s ↔ (g.kind x = .data ∧ (g.par x).bind g.par = some s) := h.mem_secData
+theorem C04_secData_nodup (g : G) (h : ForestInv g) (s : Nat) : (secData g s).Nodup := h.nodup_secData s
 
 end Gtirb.Forest
